@@ -367,3 +367,26 @@ func (f *FCFG) reachableAvoidingBlocks(target *cfg.Block, cut []cfgEdge, blocked
 	}
 	return dfs(f.G.Blocks[0])
 }
+
+// reachableFromAvoidingBlocks: target reachable from start without entering a
+// blocked block.
+func (f *FCFG) reachableFromAvoidingBlocks(start, target *cfg.Block, blocked map[*cfg.Block]bool) bool {
+	seen := map[*cfg.Block]bool{}
+	var dfs func(x *cfg.Block) bool
+	dfs = func(x *cfg.Block) bool {
+		if x == target {
+			return true
+		}
+		if blocked[x] {
+			return false
+		}
+		seen[x] = true
+		for _, s := range x.Succs {
+			if !seen[s] && dfs(s) {
+				return true
+			}
+		}
+		return false
+	}
+	return dfs(start)
+}
